@@ -2952,7 +2952,7 @@ class Interpreter(InterpreterBase, HoldableObject):
             install_tag = kwargs['install_tag']
             self.build.data.append(build.Data([cfile], idir, idir_name, install_mode, self.subproject,
                                               install_tag=install_tag, data_type='configure'))
-        return mesonlib.File.from_built_file(self.subdir, output)
+        return mesonlib.File.from_built_file(ofile_path, ofile_fname)
 
     def extract_incdirs(self, prospectives: T.List[T.Union[str, build.IncludeDirs]],
                         is_d_import_dirs: bool = False
